@@ -78,6 +78,8 @@ def _case_features(abs_):
                 f.append("contour_first_off_last_off_some_on")
             if len(p) == 1:
                 f.append("contour_single_point")
+    elif abs_["kind"] == "long":
+        f.append("long_run_%s_%s" % (abs_["mode"]["rep"], "ge257" if abs_["v"] >= 257 else "le256"))
     else:
         f.append("composite_depth_%d" % len(abs_["defs"]))
         for d in abs_["defs"]:
@@ -113,7 +115,7 @@ def run(ctx):
              (mc.generated, mc.distinct, n_cases[0], mc.wall))
     if n_cases[0] == 0:
         raise vlib.ToolError("no CASE lines generated")
-    needed = ["simple_1_contours", "simple_2_contours", "simple_3_contours", "enc_rep_none", "enc_rep_max",
+    needed = ["long_run_max_ge257", "long_run_split_ge257", "long_run_max_le256", "simple_1_contours", "simple_2_contours", "simple_3_contours", "enc_rep_none", "enc_rep_max",
               "enc_rep_zero", "enc_rep_split", "enc_zero_same", "enc_zero_word", "enc_zero_short+", "enc_zero_short-",
               "contour_all_off", "contour_first_off_last_on", "contour_first_off_last_off_some_on",
               "contour_single_point", "composite_depth_1", "composite_depth_2", "composite_depth_3",
